@@ -36,8 +36,8 @@ FRESH_UNIT = "zz_not_a_data_unit"
 
 # tier -> (exhaustive boxes [(nodes_lo, nodes_hi, maxlen)], sampled [(nodes, how many, maxlen)], real maxlen)
 PARAMS = {
-    "quick": {"boxes": [(1, 5, 6)], "sampled": [(6, 700, 5), (7, 700, 5)], "real_len": 4, "nshards": 16},
-    "thorough": {"boxes": [(1, 6, 7), (7, 7, 6)], "sampled": [], "real_len": 6, "nshards": 64},
+    "quick": {"boxes": [(1, 5, 5)], "sampled": [(6, 600, 5), (7, 600, 5)], "real_len": 4, "nshards": 16},
+    "thorough": {"boxes": [(1, 6, 7), (7, 7, 5)], "sampled": [], "real_len": 6, "nshards": 64},
 }
 
 RULE = (
@@ -47,8 +47,8 @@ RULE = (
     "(quick) / 1..6 and exactly 7 (thorough) over leaves {a, b, '.', '$'} and operators ? * + | concatenation, '$' only "
     "where nothing mandatory follows, rendered to text in 4 styles (spaced / no-whitespace / fully parenthesised / "
     "tabs+newlines with long symbol names; injective rendering, so distinct trees are distinct texts) x EVERY history of "
-    "length 6 (quick) / 7 for <=6 nodes and 6 for 7 nodes (thorough) over {a, b, z} (z is named by no pattern), shorter "
-    "histories being their prefixes; quick additionally a VERIF_SEED-chosen sample of 700+700 trees with 6 and 7 nodes x "
+    "length 5 (quick) / 7 for <=6 nodes and 5 for 7 nodes (thorough) over {a, b, z} (z is named by no pattern), shorter "
+    "histories being their prefixes; quick additionally a VERIF_SEED-chosen sample of 600+600 trees with 6 and 7 nodes x "
     "every history of length 5 (sampled, not exhaustive); plus every distinct real pattern (level table + string "
     "literals given to make_sequence/make_matching_sequence/Matcher in the tree) x every history of length 4 (quick) / 6 "
     "(thorough) over the 8 data-unit names + 1 unknown name. evaluations = walks; a walk is non-trivial if the matcher "
@@ -368,8 +368,8 @@ def floor(agg, tier):
         if got != cnt:
             miss.append("box incomplete: %d of %d patterns with %d nodes walked" % (got, cnt, n))
     lo = {"quick": 1, "thorough": 20}[tier]
-    for name, need in (("symbols_accepted", 1000000 * lo), ("symbols_refused", 1000000 * lo), ("complete_true", 100000 * lo),
-                       ("complete_false", 100000 * lo), ("next_symbols_with_wildcard", 50000 * lo),
+    for name, need in (("symbols_accepted", 800000 * lo), ("symbols_refused", 800000 * lo), ("complete_true", 100000 * lo),
+                       ("complete_false", 40000 * lo), ("next_symbols_with_wildcard", 50000 * lo),
                        ("next_symbols_with_end", 100000 * lo), ("patterns_with_dollar", 300), ("patterns_with_wildcard", 500),
                        ("real_walks", {"quick": 40000, "thorough": 3000000}[tier])):
         if c.get(name, 0) < need:
